@@ -35,14 +35,14 @@ ID_DLG = ("C03 an earlier phase delegated to an ObjectSetPhase does not gate the
           "while its objects fail their probes / later phase written early / wrong phase named)")
 
 
-def delegated_stage(run, tier, seed, replay_sc=None):
+def delegated_stage(run, tier, seed, replay_sc=None, pid="C03", ident=None):
     """The gate when the earlier phase is delegated: real ObjectSet + ObjectSetPhase controllers (machinery and theorems of
     C15, props/C15.v; DelegationProofs.v), every delegation mask of 2-3 phases plus seeded random rollouts."""
     import vlib, dlglib as dl, C15 as dlg
     if replay_sc is not None:
         scs = [replay_sc]
     else:
-        r = vlib.rng(seed, "C03-dlg")
+        r = vlib.rng(seed, pid + "-dlg")
         scs = []
         for nph in (2, 3):
             for m in dl.masks(nph):
@@ -55,7 +55,8 @@ def delegated_stage(run, tier, seed, replay_sc=None):
         for i in range(10 if tier == "quick" else 300):
             scs.append(dl.scenario_rollout(r, strategy="annot" if i % 4 == 3 else "native"))
         scs = [dl.place(sc) for sc in scs]
-    n, passes, _, _ = dlg.delegation_stage(run, "C03", scs, id_mon=ID_DLG, id_twin=ID_DLG, id_own=ID_DLG)
+    ident = ident or ID_DLG
+    n, passes, _, _ = dlg.delegation_stage(run, pid, scs, id_mon=ident, id_twin=ident, id_own=ident)
     run.cov["evaluations"] = run.cov.get("evaluations", 0) + n
     run.cov["delegated_rollouts"] = n
 
